@@ -42,7 +42,7 @@ class C11(framework.PropertyCheck):
                 a, b, c = operand(), operand(), operand()
                 k = rng.choice(['at', 'scope', 'group', 'bit', 'slice', 'quote', 'qq', 'unq', 'unqs', 'brackets', 'symhead'])
                 S = rng.choice(['QUOTE', 'QUASIQUOTE', 'UNQUOTE', 'UNQUOTE_SPLICE', 'REL_EVAL', 'Quote', 'quot', 'unquote-splice'])
-                s = rng.choice(['a', 'foo', 'sig.x', 'v<1>', 'iff', 'T', 'F', 'tr', 'Fa'])     # operator names are not signal names: ~if keeps the symbol
+                s = rng.choice(['a', 'foo', 'sig.x', 'v<1>', 'iff', 'T', 'F', 'tr', 'Fa', 'tf', 'ft', 'tt', 'ff', 'tf.x'])     # operator names are not signal names: ~if keeps the symbol
                 pair = {'at': (f'{a}@{b}', f'(reval {a} {b})'), 'scope': (f'~{s}', f'(resolve-scope {s})'), 'group': ((f'#{s}x', f'(resolve-group {s}x)') if rng.random() < 0.5 or s in ('tr',) else (f'#{s}', f'(resolve-group {s})')),
                         'bit': (f'{a}[{b}]', f'(slice {a} {b})'), 'slice': (f'{a}[{b} : {c}]', f'(slice {a} {b} {c})'), 'quote': (f"'{a}", f'(quote {a})'),
                         'qq': (f'`{a}', f'(quasiquote {a})'), 'unq': (f'`(x ,{a})', None), 'unqs': (f'`(x ,@{a})', None),
